@@ -25,8 +25,9 @@ def eq_const_edge(body, dag, subject_pred, const):
         if op not in ("Eq", "Ne"): continue
         xs, ys = D.strip_casts(x), D.strip_casts(y)
         subj = None
-        if ys == ("const", const) and subject_pred(xs): subj = xs
-        elif xs == ("const", const) and subject_pred(ys): subj = ys
+        isk = const if callable(const) else (lambda e: e == ("const", const))
+        if isk(ys) and subject_pred(xs): subj = xs
+        elif isk(xs) and subject_pred(ys): subj = ys
         if subj is None: continue
         eq_t, ne_t = (tt, ft) if op == "Eq" else (ft, tt)
         out.append((b, eq_t, ne_t, subj))
